@@ -98,6 +98,27 @@ def run(chk):
            'limited, grounded and @NoInject predicates get inlined',
            fi=v.fi, node=c)
 
+  # OkInjection must be asked about the predicate whose rules get injected
+  for n, c in sites:
+    oks = [e for e, val in v.guards(n) if val and isinstance(e, ast.Call) and
+           K.OKINJ in repo.resolve(v.fi, e)]
+    gpr = [x for m2, x in v.all_calls() if call_tail(x) == 'GetPredicateRules']
+    pred_names = {arg_name(x, 0) for x in gpr}
+    loop_vals = set()
+    for h, pol in v.cfg.header_of(n):
+      st = v.cfg.stmt[h]
+      if isinstance(st, ast.For) and isinstance(st.target, ast.Tuple) and \
+          len(st.target.elts) == 2 and 'tables' in norm(st.iter) and 'items' in norm(st.iter):
+        loop_vals.add(dotted(st.target.elts[1]))
+    asked = {arg_name(e, 0) for e in oks}
+    ok = bool(asked) and asked <= pred_names and (not loop_vals or asked <= loop_vals)
+    chk.ob('C18-R1', ok, None,
+           'OkInjection is asked about the predicate whose rules are injected',
+           'OkInjection(%s) is evaluated on something other than the predicate '
+           'name passed to GetPredicateRules(%s) (the table alias?): annotations '
+           'of the predicate are not found and an ordered / limited predicate '
+           'is inlined' % (sorted(asked), sorted(pred_names)), fi=v.fi, node=c)
+
   # ---- R3: limit 0 is a limit ---------------------------------------------
   chk.rule('C18-R3', 'absent vs zero: with LimitOf(p) an arbitrary int '
            '(possibly 0) OkInjection is still false and LimitClause still '
